@@ -182,6 +182,19 @@ func (s *Service) Execute(ctx context.Context, name string, args []interface{}) 
 		}
 	}
 	f := method.Func()
+	// a nil argument (null for an interface, pointer, slice or map parameter) has
+	// no reflect.Value of its own: pass the parameter type's zero value
+	ft := f.Type()
+	for i := range in {
+		if !in[i].IsValid() {
+			switch {
+			case ft.IsVariadic() && i >= ft.NumIn()-1:
+				in[i] = reflect.Zero(ft.In(ft.NumIn() - 1).Elem())
+			case i < ft.NumIn():
+				in[i] = reflect.Zero(ft.In(i))
+			}
+		}
+	}
 	out := f.Call(in)
 	n = len(out)
 	if method.ReturnError() {
